@@ -21,7 +21,7 @@ type c17 struct{}
 func (c17) ID() string    { return "C17" }
 func (c17) Level() string { return "exploration" }
 func (c17) Rule() string {
-	return "full product of {explicit name: unset, ok, invalid x2} x {COMPOSE_PROJECT_NAME: absent | via WithEnv, OS, .env; valid or invalid} x {name: in none/first/last/both of two files or a second --- document} x {name text: literal, ${VAR} set, ${VAR} unset, mixed case, normalises to empty} x {directory base name: plain, upper+dot, leading symbol, unicode, normalises to empty}, loaded through cli.NewProjectOptions/LoadProject with default options and with normalisation off / consistency and path resolution off / environment resolution off; every string of length <= 3 (thorough: 4) over 8 character classes (lower, upper, digit, _, -, ., @, non-ASCII) as directory base name, as literal file name and as COMPOSE_PROJECT_NAME (explicit environment, .env); and a variable that each of {WithEnv, OS environment, .env #1, .env #2} leaves undefined, defines, or defines as the empty string (all 80 state vectors) under all 8 documented option orders, observed through ${V-unset}, plus .env #2 values referencing that variable. Reference = the precedence chains of Appendix A.4. distinct = distinct (configuration class, outcome) pairs"
+	return "full product of {explicit name: unset, ok, invalid x2} x {COMPOSE_PROJECT_NAME: absent | via WithEnv, OS, .env; valid, invalid or empty} x {name: in none/first/last/both of two files or a second --- document} x {name text: literal, ${VAR} set, ${VAR} unset, mixed case, normalises to empty} x {directory base name: plain, upper+dot, leading symbol, unicode, normalises to empty}, loaded through cli.NewProjectOptions/LoadProject with default options and with normalisation off / consistency and path resolution off / environment resolution off; every string of length <= 3 (thorough: 4) over 8 character classes (lower, upper, digit, _, -, ., @, non-ASCII) as directory base name, as literal file name and as COMPOSE_PROJECT_NAME (explicit environment, .env); and a variable that each of {WithEnv, OS environment, .env #1, .env #2} leaves undefined, defines, or defines as the empty string (all 80 state vectors) under all 8 documented option orders, observed through ${V-unset}, plus .env #2 values referencing that variable. Reference = the precedence chains of Appendix A.4. distinct = distinct (configuration class, outcome) pairs"
 }
 func (c17) Assumptions() []string {
 	return []string{
@@ -50,9 +50,13 @@ type c17nameCase struct {
 	placement int // 0 none 1 first 2 last 3 both 4 second-document
 	text      int // 0 literal 1 ${VAR} set 2 ${VAR} unset 3 MiXed 4 "..."
 	dir       string
+	envEmpty  bool // COMPOSE_PROJECT_NAME is present with an empty value: as good as absent, or an error; never a third thing
 }
 
 func (n c17nameCase) id() string {
+	if n.envEmpty {
+		return fmt.Sprintf("name/x%q/e%d-empty/p%d/t%d/d%s", n.explicit, n.envSource, n.placement, n.text, n.dir)
+	}
 	return fmt.Sprintf("name/x%q/e%d%v/p%d/t%d/d%s", n.explicit, n.envSource, n.envValid, n.placement, n.text, n.dir)
 }
 
@@ -103,7 +107,7 @@ func (c17) Run(c *core.Ctx) {
 							continue
 						}
 						for di, dir := range dirs {
-							nc := c17nameCase{ex, envSource, envValid, placement, text, dir}
+							nc := c17nameCase{ex, envSource, envValid, placement, text, dir, false}
 							c.Do(nc.id(), func() core.Outcome { c17extraOpts = nil; return c17nameCheck(base, nc, texts, textVal) })
 							// the name rules do not depend on the other load options: the same point with normalisation off,
 							// with consistency checks and path resolution off, without environment resolution
@@ -120,6 +124,22 @@ func (c17) Run(c *core.Ctx) {
 								})
 							}
 						}
+					}
+				}
+			}
+		}
+	}
+	// COMPOSE_PROJECT_NAME present but empty, from each source
+	for _, ex := range []string{"", "ok-name"} {
+		for envSource := 1; envSource < 4; envSource++ {
+			for placement := 0; placement < 5; placement++ {
+				for _, text := range []int{0, 3} {
+					if placement == 0 && text != 0 {
+						continue
+					}
+					for _, dir := range []string{"app", "---"} {
+						nc := c17nameCase{explicit: ex, envSource: envSource, envValid: true, envEmpty: true, placement: placement, text: text, dir: dir}
+						c.Do(nc.id(), func() core.Outcome { c17extraOpts = nil; return c17nameCheck(base, nc, texts, textVal) })
 					}
 				}
 			}
@@ -148,10 +168,10 @@ func (c17) Run(c *core.Ctx) {
 	for _, sh := range shapes {
 		sh := sh
 		if sh != "." && sh != ".." {
-			nc := c17nameCase{"", 0, true, 0, 0, sh}
+			nc := c17nameCase{"", 0, true, 0, 0, sh, false}
 			c.Do("shape/dir/"+sh, func() core.Outcome { return c17nameCheck(base, nc, texts, textVal) })
 		}
-		nc := c17nameCase{"", 0, true, 1, 0, "app"}
+		nc := c17nameCase{"", 0, true, 1, 0, "app", false}
 		c.Do("shape/file/"+sh, func() core.Outcome { return c17nameCheck(base, nc, []string{sh}, []string{c17norm(sh)}) })
 		// the same string requested through COMPOSE_PROJECT_NAME (explicit environment, .env): accepted iff it is
 		// already in canonical form, never adjusted
@@ -174,6 +194,9 @@ func c17nameCheck(base string, nc c17nameCase, texts, textVal []string) core.Out
 	envName := "envname"
 	if !nc.envValid {
 		envName = "Env Name"
+	}
+	if nc.envEmpty {
+		envName = ""
 	}
 	svc := "services:\n  s:\n    image: i\n    labels:\n      pn: \"${COMPOSE_PROJECT_NAME}\"\n"
 	nameLine := func(t int) string { return "name: \"" + texts[t] + "\"\n" }
@@ -231,7 +254,7 @@ func c17nameCheck(base string, nc c17nameCase, texts, textVal []string) core.Out
 		} else {
 			want = nc.explicit
 		}
-	case nc.envSource != 0:
+	case nc.envSource != 0 && !nc.envEmpty:
 		if !nc.envValid {
 			wantErr = true
 		} else {
@@ -264,6 +287,9 @@ func c17nameCheck(base string, nc c17nameCase, texts, textVal []string) core.Out
 	}
 	if open {
 		return core.Outcome{Class: "open", Trivial: true}
+	}
+	if nc.envEmpty && err != nil {
+		return core.Outcome{Class: "empty-env-name-rejected", Sample: sample}
 	}
 	if wantErr {
 		if err == nil {
